@@ -238,7 +238,7 @@ def run_shard(job):
         err = (e.stderr or b"").decode("utf-8", "replace")
         rc = None
         timed_out = True
-    res = {"job": job, "rc": rc, "timed_out": timed_out, "wall": time.time() - t0, "stderr_tail": err[-6000:], "result": None, "digests": []}
+    res = {"job": job, "rc": rc, "timed_out": timed_out, "wall": time.time() - t0, "stderr_tail": (err if len(err) <= 9000 else err[:3000] + "\n[...]\n" + err[-6000:]), "result": None, "digests": []}
     for line in out.splitlines():
         if line.startswith("VMON-RESULT "):
             try:
@@ -372,6 +372,8 @@ def classify_crash(res):
         return "sanitizer.asan.%s" % (m.group(1) if m else "report")
     if "ERROR: LeakSanitizer" in err:
         return "sanitizer.lsan.leak"
+    if cfg == "asan" and rc == 77:
+        return "sanitizer.asan.report"  # the exit code set in ASAN_OPTIONS; the head of a very long report may have been cut
     if "WARNING: ThreadSanitizer" in err:
         return "sanitizer.tsan.report"
     if "Undefined Behavior" in err and CONFIGS[cfg][5] == "miri":
